@@ -279,6 +279,10 @@ impl<'tcx> Ctx<'tcx> {
         let ga = tcx.try_get_global_alloc(alloc_id)?;
         let alloc = match ga {
             GlobalAlloc::Memory(a) => a,
+            GlobalAlloc::Static(did) => {
+                let key = format!("{}{}", tcx.crate_name(did.krate), tcx.def_path(did).to_string_no_crate_verbose());
+                return Some(format!("{{\"static\":{}}}", esc(&key)));
+            }
             _ => return None,
         };
         let a = alloc.inner();
